@@ -952,7 +952,14 @@ pub fn normalize_path(path: &Path) -> PathBuf {
             }
             Component::CurDir => {}
             Component::ParentDir => {
-                ret.pop();
+                // `..` cancels out a preceding normal component. At the start of a
+                // relative path (or after another `..`) it has to stay, and the
+                // parent of the root is the root.
+                if matches!(ret.components().next_back(), Some(Component::Normal(_))) {
+                    ret.pop();
+                } else if !ret.has_root() {
+                    ret.push(component.as_os_str());
+                }
             }
             Component::Normal(c) => {
                 ret.push(c);
@@ -2004,6 +2011,26 @@ mod test {
             res.unwrap_err().downcast_ref::<String>().unwrap(),
             "not enough 'metadata' results"
         );
+    }
+
+    #[test]
+    fn test_normalize_path() {
+        for (path, expected) in [
+            ("/a/./b/../c.h", "/a/c.h"),
+            ("/../a.h", "/a.h"),
+            ("a/../b.h", "b.h"),
+            ("./a.h", "a.h"),
+            // A relative path that leaves the current directory must keep doing so.
+            ("../inc/c.h", "../inc/c.h"),
+            ("a/../../b.h", "../b.h"),
+            ("../../b.h", "../../b.h"),
+        ] {
+            assert_eq!(
+                normalize_path(Path::new(path)),
+                Path::new(expected),
+                "{path}"
+            );
+        }
     }
 
     #[test]
